@@ -315,6 +315,12 @@ def _identity(a, b, interp=None):
     if isinstance(a, ExtRef) and isinstance(b, K) or \
             isinstance(b, ExtRef) and isinstance(a, K):
         return False
+    # an abstract object (record, tuple, iterator, function, ...) is not
+    # one of the constant singletons
+    for x, y in ((a, b), (b, a)):
+        if isinstance(y, K) and (y.v is None or isinstance(y.v, bool)) and \
+                not isinstance(x, (K, T)):
+            return False
     # the result of an operator, of string formatting, of a comparison or
     # of a container display is never None
     for x, y in ((a, b), (b, a)):
